@@ -243,8 +243,8 @@ def search(ctx, deep):
             with np.errstate(all='ignore'):
                 whole = np.asarray(c.percent_point(ys.copy(), vs.copy()), dtype=float)
                 pieces = np.concatenate([np.asarray(c.percent_point(ys[i:i + 61].copy(), vs[i:i + 61].copy()), dtype=float).ravel() for i in range(0, n, 61)])
-            if whole.shape != (n,) or not np.array_equal(whole, pieces, equal_nan=True):
-                i = int(np.argmax(whole != pieces)) if whole.shape == pieces.shape else -1
+            if whole.shape != (n,) or not (whole.shape == pieces.shape and np.allclose(whole, pieces, rtol=1e-12, atol=1e-300, equal_nan=True)):
+                i = int(np.argmax(~np.isclose(whole, pieces, rtol=1e-12, atol=1e-300, equal_nan=True))) if whole.shape == pieces.shape else -1
                 found += 1
                 ctx.fail_input('clayton.percent_point', {'theta': th, 'n': n, 'generator': 'rs = RandomState(n); y, v = rs.uniform(1e-3, 1-1e-3, n) twice', 'lane': i},
                                {'whole_batch': float(whole[i]) if i >= 0 else list(whole.shape), 'in_pieces_of_61': float(pieces[i]) if i >= 0 else list(pieces.shape)},
